@@ -661,7 +661,9 @@ func createConnHandler(
 			if err != nil {
 				return err
 			}
-			if err := clientStream.SendMsg(args); err != nil {
+			if err := clientStream.SendMsg(args); err != nil && err != io.EOF {
+				// io.EOF: the backend has already ended the stream,
+				// RecvMsg below reports its status.
 				return err
 			}
 
